@@ -276,3 +276,243 @@ Theorem C10_pinned_with_precision_refuted :
   norm_approx 10 (with_precision_spec 10 MHalfAway 12345 0 3) = AInexact 123 2 NoOp.
 Proof. exact with_precision_pinned_refuted. Qed.
 Print Assumptions C10_pinned_with_precision_refuted.
+
+(* ================================================================ round 3 *)
+From Coq Require Import QArith Reals Qreals.
+From Dashu Require Import Float.RoundOpsDeep Float.RoundOpsDeepProof Float.RoundPrimGenProof Float.RoundTwiceProof
+  Float.DivMulModel Float.FilterProof Float.F32Flocq Ratio.RatRoundGenProof.
+From DashuGen Require Import RatioSmall RoundPrimGen.
+Open Scope Z_scope.
+
+(* ---------------------------------------------------------------- the f32 pre-filter of round_fract (C03's theorem, cited) *)
+
+(** Round::round_fract as written - coarse f32 comparison first, binary32 arithmetic of Flocq, any sound log2 bounds -
+    agrees with the exact comparison below 2^24 digits (C03_round_fract_flocq32) ... *)
+Theorem C10_f32_filter_admissible : forall B, 2 <= B -> forall (lb ub : Z -> Q) (b_lb b_ub : Q),
+  (forall f, 0 < f -> (Q2R (lb f) <= log2R (IZR f) <= Q2R (ub f))%R) ->
+  (Q2R b_lb <= log2R (IZR B) <= Q2R b_ub)%R ->
+  forall m i f k, 0 <= k < 2 ^ 24 ->
+  round_fract_f32 fl32 cvt32 lb ub b_lb b_ub c999_32 c1001_32 B m i f k = round_fract B m i f k.
+Proof. exact rf_flocq32_ok. Qed.
+Print Assumptions C10_f32_filter_admissible.
+
+(** ... so the primitive WITH its filter returns the specification's adjustment *)
+Theorem C10_round_fract_flocq32 : forall B, 2 <= B -> forall (lb ub : Z -> Q) (b_lb b_ub : Q),
+  (forall f, 0 < f -> (Q2R (lb f) <= log2R (IZR f) <= Q2R (ub f))%R) ->
+  (Q2R b_lb <= log2R (IZR B) <= Q2R b_ub)%R ->
+  forall m hi lo k, 0 <= k < 2 ^ 24 -> Z.abs lo < B ^ k ->
+  hi + adj (round_fract_f32 fl32 cvt32 lb ub b_lb b_ub c999_32 c1001_32 B m hi lo k) =
+  spec_round m (hi * B ^ k + lo) (B ^ k).
+Proof. exact round_fract_flocq32_spec. Qed.
+Print Assumptions C10_round_fract_flocq32.
+
+(* ---------------------------------------------------------------- the public entry points, from assert_finite on *)
+
+(** [rf] is ANY implementation of round_fract that agrees with the exact comparison below K digits (the filter above:
+    K = 2^24); (0, e <> 0) are the infinities.  Finite floats as Repr::new leaves them: *)
+Theorem C10_entry_points : forall B, 2 <= B -> forall digits_ub, (forall s, dlen B s <= digits_ub s) ->
+  forall (rf : mode -> Z -> Z -> Z -> rounding) K, (forall m i f k, 0 <= k < K -> rf m i f k = round_fract B m i f k) ->
+  forall p s e, is_inf s e = false -> - e < K -> (e < 0 -> s mod B <> 0) ->
+  (exists f, trunc_full B digits_ub p s e = Ok f /\ int_valued B f (int_spec B MZero s e)) /\
+  (exists f, floor_full B digits_ub rf p s e = Ok f /\ int_valued B f (int_spec B MDown s e)) /\
+  (exists f, ceil_full B digits_ub rf p s e = Ok f /\ int_valued B f (int_spec B MUp s e)) /\
+  (exists f, round_full B digits_ub rf p s e = Ok f /\ int_valued B f (int_spec B MHalfAway s e)) /\
+  (forall m, to_int_full B digits_ub rf m p s e = Ok (to_int_spec B m s e)) /\
+  repr_to_int_full B digits_ub s e = Ok (to_int_spec B MZero s e).
+Proof. exact entry_points_spec. Qed.
+Print Assumptions C10_entry_points.
+
+Theorem C10_entry_points_are_the_models : forall B, 2 <= B -> forall digits_ub,
+  forall (rf : mode -> Z -> Z -> Z -> rounding) K, (forall m i f k, 0 <= k < K -> rf m i f k = round_fract B m i f k) ->
+  forall p s e, is_inf s e = false -> - e < K ->
+  trunc_full B digits_ub p s e = Ok (trunc_asis B digits_ub p s e) /\
+  fract_full B digits_ub p s e = Ok (fract_asis B digits_ub false p s e) /\
+  split_full B digits_ub p s e = Ok (split_asis B digits_ub p s e) /\
+  ceil_full B digits_ub rf p s e = ceil_asis B digits_ub false p s e /\
+  floor_full B digits_ub rf p s e = floor_asis B digits_ub false p s e /\
+  round_full B digits_ub rf p s e = round_asis B digits_ub false p s e /\
+  (forall m, to_int_full B digits_ub rf m p s e = to_int_asis B digits_ub false m p s e) /\
+  repr_to_int_full B digits_ub s e = Ok (repr_to_int_asis B digits_ub s e).
+Proof. exact (fun B HB dub rf K H => entry_points_finite B dub rf K H). Qed.
+Print Assumptions C10_entry_points_are_the_models.
+
+(** the instance the code runs: the f32-filtered primitive, up to 2^24 digits after the radix point *)
+Theorem C10_to_int_f32 : forall B, 2 <= B -> forall digits_ub, (forall s, dlen B s <= digits_ub s) ->
+  forall (lb ub : Z -> Q) (b_lb b_ub : Q),
+  (forall f, 0 < f -> (Q2R (lb f) <= log2R (IZR f) <= Q2R (ub f))%R) ->
+  (Q2R b_lb <= log2R (IZR B) <= Q2R b_ub)%R ->
+  forall m p s e, is_inf s e = false -> - e < 2 ^ 24 -> (e < 0 -> s mod B <> 0) ->
+  to_int_full B digits_ub (round_fract_f32 fl32 cvt32 lb ub b_lb b_ub c999_32 c1001_32 B) m p s e = Ok (to_int_spec B m s e).
+Proof.
+  exact (fun B HB dub Hd lb ub bl bu Hl Hb m p s e Hf HK Hn =>
+    proj1 (proj2 (proj2 (proj2 (proj2 (entry_points_spec B HB dub Hd _ (2 ^ 24) (rf_flocq32_ok B HB lb ub bl bu Hl Hb) p s e Hf HK Hn))))) m).
+Qed.
+Print Assumptions C10_to_int_f32.
+
+(** infinities: every entry point panics with the documented message, except with_precision, which reaches the
+    finiteness test only when it actually rounds, and the same-base conversion, which maps them to themselves *)
+Theorem C10_entry_points_infinite : forall B digits_ub (rf : mode -> Z -> Z -> Z -> rounding) p s e, is_inf s e = true ->
+  trunc_full B digits_ub p s e = Panic OperateWithInf /\
+  fract_full B digits_ub p s e = Panic OperateWithInf /\
+  split_full B digits_ub p s e = Panic OperateWithInf /\
+  ceil_full B digits_ub rf p s e = Panic OperateWithInf /\
+  floor_full B digits_ub rf p s e = Panic OperateWithInf /\
+  round_full B digits_ub rf p s e = Panic OperateWithInf /\
+  (forall m, to_int_full B digits_ub rf m p s e = Panic OperateWithInf) /\
+  repr_to_int_full B digits_ub s e = Panic OperateWithInf /\
+  (forall m np, with_precision_full B rf m p s e np =
+     if (p =? 0) || (p >? np) then Panic OperateWithInf else Ok (AExact s e)) /\
+  (forall m np, with_same_base_full B rf m s e np = Ok (AInexact s e NoOp)).
+Proof. exact entry_points_infinite. Qed.
+Print Assumptions C10_entry_points_infinite.
+
+(** to_int: with e >= 0 the answer is s * B^e itself, so its size (the allocation the documentation warns about) is
+    the size of the result; with e < 0 it never exceeds the significand *)
+Theorem C10_to_int_size : forall B, 2 <= B -> forall m s e,
+  (0 <= e -> to_int_spec B m s e = IExact (s * B ^ e) /\ (s <> 0 -> B ^ e <= Z.abs (s * B ^ e))) /\
+  (e < 0 -> Z.abs (int_spec B m s e) <= Z.abs s).
+Proof. exact to_int_size. Qed.
+Print Assumptions C10_to_int_size.
+
+(* ---------------------------------------------------------------- compositions: which are single roundings *)
+
+Theorem C10_with_precision_full : forall B, 2 <= B ->
+  forall (rf : mode -> Z -> Z -> Z -> rounding) K, (forall m i f k, 0 <= k < K -> rf m i f k = round_fract B m i f k) ->
+  forall m p s e np, is_inf s e = false -> 0 <= p -> 0 <= np -> (p = 0 \/ dlen B s <= p) -> dlen B s - np < K ->
+  with_precision_full B rf m p s e np = Ok (norm_approx B (with_precision_spec B m s e np)).
+Proof. exact with_precision_full_spec. Qed.
+Print Assumptions C10_with_precision_full.
+
+(** with_rounding::<NewR>() then with_precision: ONE rounding under the new mode, the old mode plays no part *)
+Theorem C10_with_rounding_then_precision : forall B, 2 <= B ->
+  forall (rf : mode -> Z -> Z -> Z -> rounding) K, (forall m i f k, 0 <= k < K -> rf m i f k = round_fract B m i f k) ->
+  forall m_old m_new p s e np, is_inf s e = false -> 0 <= p -> 0 <= np -> (p = 0 \/ dlen B s <= p) -> dlen B s - np < K ->
+  with_rounding_then_precision B rf m_old m_new p s e np = Ok (norm_approx B (with_precision_spec B m_new s e np)).
+Proof. exact with_rounding_then_precision_spec. Qed.
+Print Assumptions C10_with_rounding_then_precision.
+
+(** with_base_and_precision to the SAME base: ONE rounding to np digits, whatever the old precision *)
+Theorem C10_same_base_single_rounding : forall B, 2 <= B ->
+  forall (rf : mode -> Z -> Z -> Z -> rounding) K, (forall m i f k, 0 <= k < K -> rf m i f k = round_fract B m i f k) ->
+  forall m s e np, is_inf s e = false -> 0 <= np -> dlen B s - np < K ->
+  with_same_base_full B rf m s e np = Ok (norm_approx B (with_precision_spec B m s e np)).
+Proof. exact with_same_base_full_spec. Qed.
+Print Assumptions C10_same_base_single_rounding.
+
+(** with_precision twice: two single roundings, the second one OF THE ROUNDED VALUE ... *)
+Theorem C10_with_precision_twice_steps : forall B, 2 <= B ->
+  forall (rf : mode -> Z -> Z -> Z -> rounding) K, (forall m i f k, 0 <= k < K -> rf m i f k = round_fract B m i f k) ->
+  forall m p s e np1 np2,
+  is_inf s e = false -> 0 <= p -> 1 <= np1 -> 0 <= np2 -> (p = 0 \/ dlen B s <= p) ->
+  dlen B s - np1 < K -> np1 + 1 - np2 < K ->
+  let a1 := norm_approx B (with_precision_spec B m s e np1) in
+  with_precision_twice B rf m p s e np1 np2 =
+    Ok (a1, norm_approx B (with_precision_spec B m (approx_sig a1) (approx_exp a1) np2)).
+Proof. exact with_precision_twice_steps. Qed.
+Print Assumptions C10_with_precision_twice_steps.
+
+(** ... which for the four directed modes is the rounding of the original, at any two positions ... *)
+Theorem C10_directed_rounding_twice : forall m N d1 d2, is_directed m = true -> 0 < d1 -> 0 < d2 ->
+  spec_round m (spec_round m N d1) d2 = spec_round m N (d1 * d2).
+Proof. exact directed_rounding_twice. Qed.
+Print Assumptions C10_directed_rounding_twice.
+
+Theorem C10_directed_digits_twice : forall B m s k1 k2, 2 <= B -> is_directed m = true -> 0 <= k1 -> 0 <= k2 ->
+  spec_round m (spec_round m s (B ^ k1)) (B ^ k2) = spec_round m s (B ^ (k1 + k2)).
+Proof. exact directed_digits_twice. Qed.
+Print Assumptions C10_directed_digits_twice.
+
+(** ... and for the two nearest modes is not (double rounding is not the contract) *)
+Theorem C10_nearest_rounding_twice_refuted :
+  spec_round MHalfAway (spec_round MHalfAway 2449 10) 10 = 25 /\ spec_round MHalfAway 2449 (10 * 10) = 24 /\
+  spec_round MHalfEven (spec_round MHalfEven 2549 10) 10 = 26 /\ spec_round MHalfEven 2549 (10 * 10) = 25 /\
+  with_precision_twice 10 (round_fract 10) MHalfAway 4 2449 (-3) 3 2
+    = Ok (AInexact 245 (-2) AddOne, AInexact 25 (-1) AddOne) /\
+  with_precision_full 10 (round_fract 10) MHalfAway 4 2449 (-3) 2 = Ok (AInexact 24 (-1) NoOp).
+Proof. exact nearest_rounding_twice_refuted. Qed.
+Print Assumptions C10_nearest_rounding_twice_refuted.
+
+(* ---------------------------------------------------------------- rational/src/round.rs, regenerated bodies *)
+
+Theorem C10_rat_generated_bodies : forall n d,
+  rat_split_at_point_gen n d = rat_split n d /\ rat_ceil_gen n d = rat_ceil n d /\
+  rat_floor_gen n d = rat_floor n d /\ rat_trunc_gen n d = rat_trunc n d /\
+  rat_fract_gen n d = rat_fract n d /\ rat_round_gen n d = rat_round n d.
+Proof. exact rat_gen_is_model. Qed.
+Print Assumptions C10_rat_generated_bodies.
+
+Theorem C10_rat_generated_spec : forall n d, 0 < d ->
+  rat_trunc_gen n d = spec_round MZero n d /\ rat_floor_gen n d = spec_round MDown n d /\
+  rat_ceil_gen n d = spec_round MUp n d /\ rat_round_gen n d = spec_round MHalfAway n d /\
+  rat_split_at_point_gen n d = (rat_trunc_gen n d, rat_fract_gen n d) /\
+  (let '(fn, fd) := rat_fract_gen n d in
+   0 < fd /\ n * fd = rat_trunc_gen n d * d * fd + fn * d /\ Z.abs fn < fd /\
+   (0 <= n -> 0 <= fn) /\ (n <= 0 -> fn <= 0) /\ (Z.gcd n d = 1 -> Z.gcd fn fd = 1)).
+Proof. exact rat_gen_spec. Qed.
+Print Assumptions C10_rat_generated_spec.
+
+(* ---------------------------------------------------------------- the two primitives: regenerated bodies, any input *)
+
+Theorem C10_round_fract_generated : forall B cg cl m i f k,
+  round_fract_gen cg cl (round_low_part m) B i f k = round_fract_filtered B cg cl m i f k.
+Proof. exact round_fract_gen_is_model. Qed.
+Print Assumptions C10_round_fract_generated.
+
+Theorem C10_round_fract_assertion_generated : forall B m i f k,
+  round_fract_debug B m i f k = if round_fract_pre_gen B f k then Ok (round_fract B m i f k) else Panic Undocumented.
+Proof. exact round_fract_pre_gen_is_model. Qed.
+Print Assumptions C10_round_fract_assertion_generated.
+
+Theorem C10_round_ratio_generated : forall m i n d,
+  round_ratio_gen (round_low_part m) i n d = round_ratio m i n d /\ round_ratio_pre_gen n d = round_ratio_pre n d.
+Proof. exact (fun m i n d => conj (round_ratio_gen_is_model m i n d) (round_ratio_pre_gen_is_model n d)). Qed.
+Print Assumptions C10_round_ratio_generated.
+
+Theorem C10_small_tests_generated : forall dub s e,
+  smaller_than_one_gen dub s e = smaller_than_one dub s e /\ round_to_zero_test_gen dub s e = (e + dub s <? -2).
+Proof. exact smaller_than_one_gen_is_model. Qed.
+Print Assumptions C10_small_tests_generated.
+
+Theorem C10_round_fract_any_input : forall B, 2 <= B -> forall m i f k, 0 <= k ->
+  (Z.abs f < B ^ k -> exists r, round_fract_debug B m i f k = Ok r /\ i + adj r = spec_round m (i * B ^ k + f) (B ^ k)) /\
+  (B ^ k <= Z.abs f -> round_fract_debug B m i f k = Panic Undocumented).
+Proof. exact round_fract_debug_spec. Qed.
+Print Assumptions C10_round_fract_any_input.
+
+Theorem C10_round_fract_precision_zero : forall B m i f,
+  round_fract_debug B m i f 0 = if f =? 0 then Ok NoOp else Panic Undocumented.
+Proof. exact round_fract_precision_zero. Qed.
+Print Assumptions C10_round_fract_precision_zero.
+
+Theorem C10_zero_low_part : forall B m i k d, round_fract B m i 0 k = NoOp /\ round_ratio m i 0 d = NoOp.
+Proof. exact (fun B m i k d => conj (round_fract_zero_low B m i k) (round_ratio_zero_low m i d)). Qed.
+Print Assumptions C10_zero_low_part.
+
+Theorem C10_round_fract_release_outside_refuted :
+  round_fract_release 10 MDown 5 30 1 = Ok NoOp /\ spec_round MDown (5 * 10 ^ 1 + 30) (10 ^ 1) = 8 /\
+  round_fract_debug 10 MDown 5 30 1 = Panic Undocumented.
+Proof. exact round_fract_release_outside_refuted. Qed.
+Print Assumptions C10_round_fract_release_outside_refuted.
+
+Theorem C10_round_ratio_any_input : forall m I num den,
+  (den <> 0 -> Z.abs num < Z.abs den ->
+     exists r, round_ratio_pub m I num den = Ok r /\
+       I + adj r = spec_round m (Z.sgn den * (I * den + num)) (Z.abs den)) /\
+  (den = 0 \/ Z.abs den < Z.abs num -> round_ratio_pub m I num den = Panic Undocumented).
+Proof. exact round_ratio_pub_spec. Qed.
+Print Assumptions C10_round_ratio_any_input.
+
+(** |num| = |den| passes round_ratio's assertion (documented: |num/den| < 1): right for the nearest modes ... *)
+Theorem C10_round_ratio_boundary_nearest : forall m I num den, is_half_mode m = true -> den <> 0 -> Z.abs num = Z.abs den ->
+  exists r, round_ratio_pub m I num den = Ok r /\
+    I + adj r = spec_round m (Z.sgn den * (I * den + num)) (Z.abs den).
+Proof. exact round_ratio_boundary_half. Qed.
+Print Assumptions C10_round_ratio_boundary_nearest.
+
+(** ... wrong for the directed ones *)
+Theorem C10_round_ratio_boundary_directed_refuted :
+  round_ratio_pub MDown 0 1 1 = Ok NoOp /\ spec_round MDown (Z.sgn 1 * (0 * 1 + 1)) (Z.abs 1) = 1 /\
+  round_ratio_pub MZero 3 (-2) 2 = Ok SubOne /\ round_ratio_pub MZero 3 2 2 = Ok NoOp /\
+  spec_round MZero (Z.sgn 2 * (3 * 2 + 2)) (Z.abs 2) = 4.
+Proof. exact round_ratio_boundary_directed_refuted. Qed.
+Print Assumptions C10_round_ratio_boundary_directed_refuted.
